@@ -31,7 +31,9 @@ func (eng) Rule() string {
 		"negotiation handler, a final handler, an Eval body; landing points chosen with the dispose.* gates and handler gates (idle, queue " +
 		"running, mid-negotiation, mid-final, during Eval, during another dispose) with 0-4 concurrent mutators. After WhenDisposed closes: " +
 		"every earlier channel/ctx closed, each dispose handler ran exactly once, no handlerLoop goroutine left (goroutine dump), every " +
-		"later public call returns a neutral value without panicking or blocking. Evaluation = one post-dispose assertion; distinct " +
+		"later public call returns a neutral value without panicking or blocking; (faultdisp) the same after one handler (AEnter or AState) " +
+		"panicked, overran HandlerTimeout and returned late, or overran and then panicked, disposed while the machine waits for the " +
+		"handler's deadline or after it forked a new loop. Evaluation = one post-dispose assertion; distinct " +
 		"non-trivial = distinct (dispose mode, origin, landing point, handlers, #subscriptions>0)."
 }
 func (eng) Assumptions() []string {
@@ -51,6 +53,13 @@ func (eng) Cases(seed uint64, tier string) []core.CaseDesc {
 	}
 	for i := 0; i < n; i++ {
 		cs = append(cs, core.CaseDesc{ID: fmt.Sprintf("disp/%05d", i), Kind: "disp", Seed: seed*1000003 + uint64(i)})
+	}
+	nf := 36
+	if tier == "thorough" {
+		nf = 720
+	}
+	for i := 0; i < nf; i++ {
+		cs = append(cs, core.CaseDesc{ID: fmt.Sprintf("faultdisp/%04d", i), Kind: "faultdisp", Seed: seed*5000011 + uint64(i)})
 	}
 	return cs
 }
@@ -176,10 +185,140 @@ func runSubsWindow(res *core.CaseResult, c core.CaseDesc) {
 	res.Key("subswin", len(subs))
 }
 
+// runFaultDispose: the machine is disposed after one of its handlers faulted
+// (panic, overrun of HandlerTimeout with a late return, overrun followed by a
+// panic), while it still waits for the handler's deadline or after it forked a
+// new handler loop. Disposal has to complete, close the earlier channels,
+// leave no handler loop goroutine behind and make later calls return.
+func runFaultDispose(res *core.CaseResult, c core.CaseDesc) {
+	i := int(c.Seed % 36)
+	r := gen.NewRand(c.Seed, 137)
+	fault := []string{"overrun-return", "overrun-panic", "panic"}[i%3]
+	where := []string{"AState", "AEnter"}[(i/3)%2]
+	deadline := []time.Duration{100 * time.Millisecond, 2 * time.Second}[(i/6)%2]
+	mode := []string{"dispose", "double", "parentctx"}[(i/12)%3]
+	wait := time.Duration(20+r.IntN(280)) * time.Millisecond
+	block := 120 * time.Millisecond
+	parent, cancel := context.WithCancel(context.Background())
+	defer cancel()
+	base := countLoops()
+	m := am.New(parent, am.Schema{"A": {}, "B": {}}, &am.Opts{Id: "c13fd", DontLogId: true, DontLogStackTrace: true,
+		HandlerTimeout: 30 * time.Millisecond, HandlerDeadline: deadline, HandlerBackoff: time.Millisecond})
+	m.DisposeTimeout = 200 * time.Millisecond
+	started := make(chan struct{})
+	var once sync.Once
+	body := func() {
+		first := false
+		once.Do(func() { first = true; close(started) })
+		if !first {
+			return
+		}
+		if fault != "panic" {
+			time.Sleep(block)
+		}
+		if fault != "overrun-return" {
+			panic("c13 fault")
+		}
+	}
+	neg := map[string]am.HandlerNegotiation{}
+	fin := map[string]am.HandlerFinal{"BState": func(*am.Event) {}}
+	if where == "AEnter" {
+		neg["AEnter"] = func(*am.Event) bool { body(); return true }
+	} else {
+		fin["AState"] = func(*am.Event) { body() }
+	}
+	_, _ = m.HandlersBindMaps(neg, fin)
+	ctxInfo := map[string]any{"fault": fault, "handler": where, "HandlerTimeout": "30ms", "HandlerDeadline": deadline.String(),
+		"dispose_after": (block + wait).String(), "mode": mode}
+	whenB := m.When1("B", nil)
+	sctx := m.NewStateCtx("A")
+	go m.Add1("A", nil)
+	select {
+	case <-started:
+	case <-time.After(10 * time.Second):
+		res.Inconclusive = "the faulting handler never started"
+		m.Dispose()
+		return
+	}
+	time.Sleep(block + wait)
+	switch mode {
+	case "dispose":
+		m.Dispose()
+	case "double":
+		m.Dispose()
+		m.Dispose()
+	case "parentctx":
+		cancel()
+	}
+	res.Evals++
+	select {
+	case <-m.WhenDisposed():
+	case <-time.After(25 * time.Second):
+		dump := core.StackAll()
+		if strings.Contains(dump, "doDispose") {
+			res.Inconclusive = "disposal still running after 25s"
+		} else {
+			res.Violate("C13/whendisposed-open/after-handler-fault/"+fault, "WhenDisposed still open 25s after the disposal of a machine whose handler had faulted, no doDispose frame left",
+				map[string]any{"ctx": ctxInfo, "dump": dump})
+		}
+		return
+	}
+	res.Evals++
+	if !isClosed(whenB) {
+		res.Violate("C13/open-after-dispose/after-handler-fault", "a When channel made before the fault is still open after the disposal completed", ctxInfo)
+	}
+	_ = sctx
+	// later calls return
+	ret := make(chan am.Result, 1)
+	go func() { ret <- m.Add1("B", nil) }()
+	res.Evals++
+	select {
+	case rs := <-ret:
+		if rs != am.Canceled {
+			res.Violate("C13/after/not-neutral/Add1/after-handler-fault", fmt.Sprintf("Add1 on the disposed machine returned %s", rec.ResStr(rs)), ctxInfo)
+		}
+	case <-time.After(10 * time.Second):
+		res.Violate("C13/after/blocked/Add1/after-handler-fault", "Add1 on the disposed machine did not return within 10s", map[string]any{"ctx": ctxInfo, "dump": core.StackAll()})
+		return
+	}
+	// handler loops gone (the overrunning handler itself returns after 120ms)
+	res.Evals++
+	gone := false
+	for k := 0; k < 500; k++ {
+		if countLoops() <= base {
+			gone = true
+			break
+		}
+		time.Sleep(10 * time.Millisecond)
+	}
+	if !gone {
+		dump := core.StackAll()
+		state := "running"
+		for _, g := range strings.Split(dump, "\n\n") {
+			if strings.Contains(g, "machine.(*Machine).handlerLoop") {
+				if k := strings.Index(g, "["); k >= 0 {
+					if e := strings.Index(g[k:], "]"); e > 0 {
+						state = strings.Split(g[k+1:k+e], ",")[0]
+					}
+				}
+			}
+		}
+		res.Violate("C13/handler-goroutine-left/after-handler-fault/"+fault, fmt.Sprintf(
+			"%d handlerLoop goroutines remain 5s after WhenDisposed closed (baseline %d; goroutine state: %s)", countLoops(), base, state),
+			map[string]any{"ctx": ctxInfo, "dump": dump})
+	}
+	res.Count("disposals_after_handler_fault", 1)
+	res.Key("faultdisp", fault, where, deadline, mode)
+}
+
 func (eng) Run(c core.CaseDesc, tier string) *core.CaseResult {
 	res := &core.CaseResult{Case: c}
 	if c.Kind == "subswin" {
 		runSubsWindow(res, c)
+		return res
+	}
+	if c.Kind == "faultdisp" {
+		runFaultDispose(res, c)
 		return res
 	}
 	r := gen.NewRand(c.Seed, 13)
